@@ -494,7 +494,8 @@ def run_border_user(chk, kind, pos, r, rot):
             if abs(complex(usr.pos) - ref) > TOL * r or not isinstance(usr, cellmod.Node):
                 chk.fail(("add_border_user", family(kind), "position"), dict(case, angle=a, ratio=q),
                          observed=usr.pos, expected=ref)
-            if abs(complex(usr.relative_pos) - (complex(usr.pos) - complex(obj.pos))) > TOL * r:
+            if usr.relative_pos is None or \
+                    abs(complex(usr.relative_pos) - (complex(usr.pos) - complex(obj.pos))) > TOL * r:
                 chk.fail(("add_border_user", "relative_pos"), dict(case, angle=a, ratio=q),
                          observed=usr.relative_pos, expected=complex(usr.pos) - complex(obj.pos))
 
@@ -1077,14 +1078,18 @@ def apply_event(kind, obj, ev):
         setattr(obj, name, val)
 
 
-def scripted_defaults(limit=10 * NDIR):
+def scripted_defaults(limit=10 * NDIR, lead=()):
+    """the cyclic default stream, optionally preceded by the draws `lead` (e.g. (0.5, 0.5) = the cell centre,
+    which a positive min_dist_ratio must reject)"""
     k = [0]
 
     def answer(_):
         k[0] += 1
         if k[0] > limit:
             raise Horizon("rejection loop never accepts a default draw")
-        return DEFAULTS[(k[0] - 1) % len(DEFAULTS)]
+        if k[0] <= len(lead):
+            return lead[k[0] - 1]
+        return DEFAULTS[(k[0] - 1 - len(lead)) % len(DEFAULTS)]
     return ScriptedUniform(answer)
 
 
@@ -1644,16 +1649,18 @@ def run_entry_points(chk, what, pos, rot):
                 views = []
                 for i, j in ((0, 2), (2, 0), (1, 3), (3, 1)):
                     rect = shapes.Rectangle(pos + cs[i], pos + cs[j], rot)
+                    c2 = dict(case, half_width=w, half_height=h, corners=[i, j])
+                    v0 = np.array(rect.vertices, dtype=complex)
+                    if not same_point_set(v0, mv, TOL * max(w, h)):
+                        chk.fail(sig0 + ("vertices_differ_from_model",), c2, observed=v0, expected=mv)
+                        continue
                     v = geometry_view(rect, probes)
                     views.append(v)
-                    c2 = dict(case, half_width=w, half_height=h, corners=[i, j])
-                    if not same_point_set(v[0], mv, TOL * max(w, h)):
-                        chk.fail(sig0 + ("vertices_differ_from_model",), c2, observed=v[0], expected=mv)
-                    elif v[1] != want_inside:
+                    if v[1] != want_inside:
                         chk.fail(sig0 + ("containment",), c2, observed=v[1], expected=want_inside)
                     elif not same_view(v, views[0], TOL * max(w, h), ordered=True):
                         chk.fail(sig0 + ("differs_from_the_lower_left_upper_right_order",), c2, observed=v[0], expected=views[0][0])
-                if w == h:
+                if w == h and views:
                     sq = cell.CellSquare(pos, 2 * w, cell_id=1, rotation=rot)
                     if not same_view(geometry_view(sq, probes), views[0], TOL * w, ordered=True):
                         chk.fail(sig0 + ("CellSquare_by_side_differs_from_Rectangle_by_corners",), case,
@@ -1711,10 +1718,15 @@ def run_entry_points(chk, what, pos, rot):
                 ref = None
                 for form in forms:
                     cl = cell.Cluster(cell_radius=r, num_cells=n, pos=pos, cell_type=ctype, rotation=rot)
-                    su = scripted_defaults(40 * NDIR)
+                    # the first draws address the cell centre: accepted only if min_dist_ratio got lost on the way
+                    su = scripted_defaults(40 * NDIR, lead=(0.5, 0.5))
                     with patched((np.random, "random_sample", su.random_sample)):
                         forms[form](cl)
                     bforms[form](cl)
+                    first = cl.get_cell_by_id(1).users[0]
+                    if abs(complex(first.pos) - complex(cl.get_cell_by_id(1).pos)) < 0.3 * r * (1 - 1e-12):
+                        chk.fail(sig0 + ("min_dist_ratio_ignored",), dict(case, cell_type=ctype, form=form),
+                                 observed=first.pos, expected=">= 0.3 r from the centre of cell 1")
                     users = [[complex(u.pos) for u in c.users] for c in cl]
                     colors = [[u.marker_color for u in c.users] for c in cl]
                     d1 = np.asarray(cl.calc_dist_all_users_to_each_cell())
